@@ -153,6 +153,20 @@ def decide(spec, tier, seed):
         leanchecker = "ok" if rc_lc == 0 else "FAILED: " + out_lc[-800:]
         if rc_lc != 0:
             broken.append({"kind": "broken-obligation", "obligation": "leanchecker %s" % spec.lean_module, "detail": out_lc[-1500:]})
+        # the independent re-checker over the tie modules too (soft like the ties: a module it refuses counts as not established)
+        for tset in (ties, ovf):
+            for mod in sorted((tset or {}).get("established", {})):
+                with core.Lock("lake"):
+                    try:
+                        rc_t, out_t = core.run(["lake", "env", "leanchecker", mod], cwd=core.LEAN, timeout=1800)
+                    except Exception as ex:
+                        rc_t, out_t = 1, str(ex)
+                if rc_t == 0:
+                    tset["established"][mod]["leanchecker"] = "ok"
+                else:
+                    tset["not_established"][mod] = ["leanchecker: " + out_t[-400:]]
+                    del tset["established"][mod]
+                    notes.append("leanchecker refused the tie module %s" % mod)
     if ok and os.path.exists(core.DRIVER):
         streams = list(spec.streams(stream_tier, rng))
         cpath = os.path.join(core.VERIF, "corpus", pid + ".txt")
